@@ -967,10 +967,9 @@ def EnvironmentalScore_core (r0 : Nat) (r1 : Nat) (r2 : Nat) (r3 : Nat) (r4 : Na
   F64.flet (F64.mul (F64.mul (F64.mul (F64.mul (0x402070a3d70a3d71 : Nat) (GenV31.attackVector mav)) (GenV31.attackComplexity mac)) (GenV31.privilegesRequired mpr ms)) (GenV31.userInteraction mui)) fun modifiedExploitability =>
   cond (F64.le modifiedImpact (0x0000000000000000 : Nat))
     ((0x0000000000000000 : Nat))
-    (F64.flet (F64.add modifiedImpact modifiedExploitability) fun sum =>
-    cond (Nat.beq ms (0 : Nat))
-      ((GenV31.roundup (F64.mul (F64.mul (F64.mul (GenV31.roundup (F64.min sum (0x4024000000000000 : Nat))) e_) rl) rc)))
-      (F64.flet (F64.min (F64.mul (0x3ff147ae147ae148 : Nat) sum) (0x4024000000000000 : Nat)) fun r =>
+    (cond (Nat.beq ms (0 : Nat))
+      ((GenV31.roundup (F64.mul (F64.mul (F64.mul (GenV31.roundup (F64.min (F64.add modifiedImpact modifiedExploitability) (0x4024000000000000 : Nat))) e_) rl) rc)))
+      (F64.flet (F64.min (F64.mul (0x3ff147ae147ae148 : Nat) (F64.add modifiedImpact modifiedExploitability)) (0x4024000000000000 : Nat)) fun r =>
       (GenV31.roundup (F64.mul (F64.mul (F64.mul (GenV31.roundup r) e_) rl) rc))))
 
 def EnvironmentalScore (u0 : Nat) (u1 : Nat) (u2 : Nat) (u3 : Nat) (u4 : Nat) (u5 : Nat) : Nat :=
